@@ -10,7 +10,8 @@ job = {dirs: [abs dir,...], paths: [abs input path,...], files: {id: abs path} (
        contents: [text,...], cwd: dir index, argv: [token,...], ops: [[kind, ...],...], tmp: dir, out: file}
 ops:  ["newclient", caching] ["get", ci, p] ["getdict", ci, p, c] ["write", p, c] ["delete", p]
       ["chdir", d] ["setargv", [token,...]] ["cli", p] ["getmix", ci, p, q, [[name, value],...], c]
-      ["hip", k, p]   (k = 1: HipRaXClient, 2: HipRaClient; a new client and a new HipRaInputParameters per request)
+      ["hip", k, p]   (k = 1: HipRaXClient, 2: HipRaClient; ONE client object per program for the whole session - a client
+                       that kept results between requests would show - and a new HipRaInputParameters per request)
       ["mc", prog, q, n, [[name, distribution, a, b],...], [p1..pn], c]   n Monte-Carlo iterations on base file q:
             geophires_monte_carlo.MC_GeoPHIRES3.work_package called directly (what a pool worker executes); prog
             "g" | 1 | 2 selects the embedded client.  Each iteration writes its own input file (path p_j, content c =
@@ -164,7 +165,7 @@ def run_session(job):
 
     os.chdir(dirs[job['cwd']])
     sys.argv = list(job['argv'])
-    clients, results, obs = [], [], []
+    clients, results, obs, hip_clients = [], [], [], {}
     real_stdout = sys.stdout
     for op in job['ops']:
         kind = op[0]
@@ -213,7 +214,9 @@ def run_session(job):
                     out = ['raised', type(e).__name__, str(e)[:200]]
             elif kind == 'hip':
                 try:
-                    client = hip_ra_x.HipRaXClient() if op[1] == 1 else hip_ra.HipRaClient()
+                    if op[1] not in hip_clients:
+                        hip_clients[op[1]] = hip_ra_x.HipRaXClient() if op[1] == 1 else hip_ra.HipRaClient()
+                    client = hip_clients[op[1]]
                     r = client.get_hip_ra_result(hip_ra.HipRaInputParameters(req_path(op[2])))
                     text = open(r.output_file_path, encoding='UTF-8').read()
                     out = ['ret', sha(json.dumps(r.result, sort_keys=True, default=str)), False, sha(MASK.sub(r'\1 <masked>', text)), None]
